@@ -284,6 +284,51 @@ impl Check for Lowered {
                 continue;
             }
             r = r.count("accepted", 1);
+            if matches!(self.mode, Mode::Preservation) {
+                // C19 needs only the first-order SPS program (assembly lowering is C18's business)
+                let sps_low = match subject.lower_to_sps_low() {
+                    | Ok((_, _, _, s)) => s,
+                    | Err(_) => {
+                        r = r.count("not_lowered", 1);
+                        continue;
+                    }
+                };
+                r = r.count("lowered", 1);
+                let run = subject.run(prog.stdin, &[], SUBJECT_FUEL);
+                let m = e2::Machine::new(&sps_low, 400_000).run(prog.stdin, &[]);
+                r = r.count("machine_steps", m.steps);
+                let agree = match (&run.end, &m.end) {
+                    | (_, e2::MEnd::Unsupported(_)) => {
+                        r = r.count("machine_unsupported", 1);
+                        true
+                    }
+                    | (RunEnd::OutOfFuel, _) | (_, e2::MEnd::OutOfFuel) => {
+                        let n = run.output.len().min(m.output.len());
+                        run.output[..n] == m.output[..n]
+                    }
+                    | (RunEnd::Ret(a), e2::MEnd::Ret(b)) => {
+                        nontrivial += 1;
+                        a == b && run.output == m.output
+                    }
+                    | (RunEnd::Exit(a), e2::MEnd::Exit(b)) => {
+                        nontrivial += 1;
+                        a == b && run.output == m.output
+                    }
+                    | (RunEnd::Panic(p), e2::MEnd::Trap(t)) => {
+                        nontrivial += 1;
+                        p.msg == *t && run.output == m.output
+                    }
+                    | _ => false,
+                };
+                if !agree {
+                    let fp = match &m.end {
+                        | e2::MEnd::Stuck(s) => format!("SPSLow program gets stuck: {}", s.split(':').next().unwrap_or(s).chars().take(70).collect::<String>()),
+                        | _ => format!("SPSLow behaviour differs from the interpreter (origin {})", prog.origin),
+                    };
+                    r = r.violation(fp, format!("interpreter: {:?} output {:?}\nSPSLow machine: {:?} output {:?}\nstdin {:?}\n{}", run.end, String::from_utf8_lossy(&run.output), m.end, String::from_utf8_lossy(&m.output), String::from_utf8_lossy(prog.stdin), text));
+                }
+                continue;
+            }
             let backend = match subject.lower() {
                 | Ok(b) => b,
                 | Err(LowerFail::NoPath(_)) => {
@@ -356,41 +401,7 @@ impl Check for Lowered {
                         }
                     }
                 }
-                | Mode::Preservation => {
-                    let run = subject.run(prog.stdin, &[], SUBJECT_FUEL);
-                    let m = e2::Machine::new(&backend.sps_low, 400_000).run(prog.stdin, &[]);
-                    r = r.count("machine_steps", m.steps);
-                    let agree = match (&run.end, &m.end) {
-                        | (_, e2::MEnd::Unsupported(_)) => {
-                            r = r.count("machine_unsupported", 1);
-                            true
-                        }
-                        | (RunEnd::OutOfFuel, _) | (_, e2::MEnd::OutOfFuel) => {
-                            let n = run.output.len().min(m.output.len());
-                            run.output[..n] == m.output[..n]
-                        }
-                        | (RunEnd::Ret(a), e2::MEnd::Ret(b)) => {
-                            nontrivial += 1;
-                            a == b && run.output == m.output
-                        }
-                        | (RunEnd::Exit(a), e2::MEnd::Exit(b)) => {
-                            nontrivial += 1;
-                            a == b && run.output == m.output
-                        }
-                        | (RunEnd::Panic(p), e2::MEnd::Trap(t)) => {
-                            nontrivial += 1;
-                            p.msg == *t && run.output == m.output
-                        }
-                        | _ => false,
-                    };
-                    if !agree {
-                        let fp = match &m.end {
-                            | e2::MEnd::Stuck(s) => format!("SPSLow program gets stuck: {}", s.split(':').next().unwrap_or(s).chars().take(70).collect::<String>()),
-                            | _ => format!("SPSLow behaviour differs from the interpreter (origin {})", prog.origin),
-                        };
-                        r = r.violation(fp, format!("interpreter: {:?} output {:?}\nSPSLow machine: {:?} output {:?}\nstdin {:?}\n{}", run.end, String::from_utf8_lossy(&run.output), m.end, String::from_utf8_lossy(&m.output), String::from_utf8_lossy(prog.stdin), text));
-                    }
-                }
+                | Mode::Preservation => unreachable!(),
             }
         }
         r.nontrivial = nontrivial > 0;
